@@ -1,4 +1,896 @@
-import ZCV.Model.TreeLoad
+import ZCV.Lemmas.NoInternalLower
+import ZCV.Lemmas.ElabInv
+import ZCV.Lemmas.ElabRulesDoc
+/-!
+# C10 — schema documents are accepted exactly when they obey the schema language rules
+
+One theorem per static rule, about the handler of the schema-loader model (`ZCV/Model/Elab.lean`) that enforces it.
+Each says: an element that breaks the rule makes the handler return `.error (.schema _)` — a `SchemaError`, raised
+while the schema is loaded — whatever the rest of the loader state is; and, where the code is an "if and only if",
+that the handler does not fail for that reason otherwise.
+
+Handlers that run other checks *before* the rule (e.g. `start_sectiontype` resolves the `prefix` attribute and the
+datatype attributes before it registers the name) get two statements: `…_refused` (unconditional: the handler does
+not succeed) and the exact `SchemaError` once the earlier steps of the same handler are known to pass.
+
+Notation used below (defined in `ZCV/Lemmas/ElabRules.lean`):
+`es.typeNames` — the keys of the type table; `DupKey ch key` / `DupAttr ch a` — `key` (non-empty) is already the key
+of a child in `ch` / `a` (non-empty) already the attribute name of a child; `effName attrs dflt` — the `name`
+attribute or the handler's default; `e.isSchema` — the failure `e` is a `SchemaError`.
+-/
 namespace ZCV.Props.C10
-open ZCV
+open ZCV ZCV.Elab
+open ZCV.Cfg (VI SectInfo Default)
+
+/-! ## 1. unique type names -/
+
+/-- `SchemaType.addtype`: a type name that is already a key of the type table is a `SchemaError`; any other name is
+appended to the table, and nothing else changes.  `addtype` fails for no other reason. -/
+theorem C10_unique_type_names (es : ES) (n : Str) (e : EEntry) :
+    ((∃ t, addType es n e = .error (.schema t)) ↔ n ∈ es.types.map (·.1)) ∧
+    (n ∈ es.types.map (·.1) → addType es n e = .error (.schema "type name cannot be redefined")) ∧
+    (n ∉ es.types.map (·.1) → addType es n e = .ok { es with types := es.types ++ [(n, e)] }) ∧
+    (∀ err, addType es n e = .error err → err = .schema "type name cannot be redefined") := by
+  refine ⟨⟨?_, ?_⟩, addType_dup es n e, addType_fresh es n e, fun err h => (addType_error h).2⟩
+  · rintro ⟨t, ht⟩; exact (addType_error ht).1
+  · intro h; exact ⟨_, addType_dup es n e h⟩
+
+example : ∃ es : ES, "a".toList ∈ es.types.map (·.1) ∧ "b".toList ∉ es.types.map (·.1) :=
+  ⟨{ emptyES with types := [("a".toList, .abstract_ "a".toList [] false)] }, by decide, by decide⟩
+
+/-- `<abstracttype name=v>`: the name is normalised as a basic-key first (`n`); the element is refused with a
+`SchemaError` iff `n` is already defined, and otherwise registers the empty abstract type `n` and opens it. -/
+theorem C10_unique_type_names_abstracttype (st : PSt) (attrs : Attrs) (v n : Str)
+    (hv : attr attrs "name" = some v) (hn : basicKeyE v = .ok n) :
+    (n ∈ st.es.types.map (·.1) → startAbstracttype st attrs = .error (.schema "type name cannot be redefined")) ∧
+    (n ∉ st.es.types.map (·.1) →
+      startAbstracttype st attrs =
+        .ok { st with es := { st.es with types := st.es.types ++ [(n, .abstract_ n [] false)] },
+                      stack := .atype n :: st.stack }) := by
+  rw [startAbstracttype_named st attrs v n hv hn]
+  constructor
+  · intro h; rw [addType_dup _ _ _ h]; rfl
+  · intro h; rw [addType_fresh _ _ _ h]; rfl
+
+/-- every way `<abstracttype>` can fail (no name, ill-formed name, redefinition) is a `SchemaError` -/
+theorem C10_abstracttype_errors_are_schema (st : PSt) (attrs : Attrs) (e : EFail)
+    (h : startAbstracttype st attrs = .error e) : ∃ t, e = .schema t :=
+  (EFail.isSchema_iff e).1 (startAbstracttype_error h)
+
+/-- `<sectiontype name=v>` succeeds only if the (basic-key normalised) name is new; it then appends exactly that name
+to the type table (as a concrete type) and opens it. -/
+theorem C10_unique_type_names_sectiontype (env : Env) (st st' : PSt) (attrs : Attrs)
+    (h : startSectiontype env st attrs = .ok st') :
+    ∃ v n, attr attrs "name" = some v ∧ basicKeyE v = .ok n ∧ n ∉ st.es.types.map (·.1) ∧
+      st'.es.types.map (·.1) = st.es.types.map (·.1) ++ [n] ∧ st'.stack = .stype n :: st.stack := by
+  obtain ⟨v, n, t, h1, h2, h3, h4, h5, _⟩ := startSectiontype_result h
+  exact ⟨v, n, h1, h2, h3, h4, h5⟩
+
+/-- …so a `<sectiontype>` whose name is already defined is never accepted -/
+theorem C10_unique_type_names_sectiontype_refused (env : Env) (st st' : PSt) (attrs : Attrs) (v n : Str)
+    (hv : attr attrs "name" = some v) (hn : basicKeyE v = .ok n) (hdup : n ∈ st.es.types.map (·.1)) :
+    startSectiontype env st attrs ≠ .ok st' := by
+  intro h
+  obtain ⟨v', n', h1, h2, h3, _⟩ := C10_unique_type_names_sectiontype env st st' attrs h
+  rw [hv] at h1; cases h1
+  rw [hn] at h2; cases h2
+  exact h3 hdup
+
+/-- …and it is reported as the `SchemaError` "type name cannot be redefined" as soon as the attributes that
+`start_sectiontype` looks at before (prefix; key type / datatype) are acceptable — here without `extends` -/
+theorem C10_unique_type_names_sectiontype_error (env : Env) (st st1 : PSt) (attrs : Attrs) (v n kt dt : Str)
+    (hv : attr attrs "name" = some v) (hn : basicKeyE v = .ok n) (hp : pushPrefix st attrs = .ok st1)
+    (hx : attr attrs "extends" = none) (hi : getSectTypeinfo env st1 attrs none = .ok (kt, dt))
+    (hdup : n ∈ st.es.types.map (·.1)) :
+    startSectiontype env st attrs = .error (.schema "type name cannot be redefined") := by
+  apply startSectiontype_of_base_error env st attrs v n st1 _ hv hn hp
+  apply sectiontypeBase_dup_plain env st1 attrs n kt dt hx hi
+  obtain ⟨p, rfl⟩ := pushPrefix_ok hp
+  exact hdup
+
+/-- …the same with `extends` naming a concrete base -/
+theorem C10_unique_type_names_sectiontype_error_ext (env : Env) (st st1 : PSt) (attrs : Attrs)
+    (v n b bn key kt dt : Str) (base : EType)
+    (hv : attr attrs "name" = some v) (hn : basicKeyE v = .ok n) (hp : pushPrefix st attrs = .ok st1)
+    (hx : attr attrs "extends" = some b) (hb : basicKeyE b = .ok bn)
+    (hg : st.es.gettype bn = some (key, .concrete base))
+    (hi : getSectTypeinfo env st1 attrs (some (base.keytype, base.datatype)) = .ok (kt, dt))
+    (hdup : n ∈ st.es.types.map (·.1)) :
+    startSectiontype env st attrs = .error (.schema "type name cannot be redefined") := by
+  apply startSectiontype_of_base_error env st attrs v n st1 _ hv hn hp
+  obtain ⟨p, rfl⟩ := pushPrefix_ok hp
+  exact sectiontypeBase_dup_ext env _ attrs n b bn key kt dt base hx hb hg hi hdup
+
+/-! ## 2. unique key names and attribute names per container, inherited ones included -/
+
+/-- `SectionType._add_child` on the container on top of the stack, whose children are `ch`:
+a `SchemaError` iff the key is non-empty and already the key of a child, or the attribute name is non-empty and
+already the attribute name of a child; otherwise the child is appended (and can be read back).  If there is no
+container on top of the stack the failure is not a `SchemaError` (and not this rule's business). -/
+theorem C10_unique_children (st : PSt) (key : Option Str) (info : EInfo) :
+    ((∃ t, addChild st key info = .error (.schema t)) ↔
+        ∃ ch, topChildren st = .ok ch ∧ (DupKey ch key ∨ DupAttr ch info.attr)) ∧
+    (∀ ch, topChildren st = .ok ch → DupKey ch key →
+        addChild st key info = .error (.schema "child name … already used")) ∧
+    (∀ ch, topChildren st = .ok ch → ¬ DupKey ch key → DupAttr ch info.attr →
+        addChild st key info = .error (.schema "child attribute name … already used")) ∧
+    (∀ ch, topChildren st = .ok ch → ¬ DupKey ch key → ¬ DupAttr ch info.attr →
+        addChild st key info = .ok (setTopChildren st (ch ++ [(key, info)])) ∧
+        topChildren (setTopChildren st (ch ++ [(key, info)])) = .ok (ch ++ [(key, info)])) := by
+  refine ⟨addChild_schema_iff st key info, fun ch h1 h2 => addChild_dupKey key info h1 h2,
+    fun ch h1 h2 h3 => addChild_dupAttr key info h1 h2 h3, fun ch h1 h2 h3 => ⟨addChild_fresh key info h1 h2 h3, ?_⟩⟩
+  exact topChildren_setTopChildren _ h1
+
+/-- what the two clash conditions mean, spelled out -/
+theorem C10_unique_children_conditions (ch : List (Option Str × EInfo)) (key : Option Str) (a : Str) :
+    (DupKey ch key ↔ (∃ k, key = some k ∧ k ≠ []) ∧ key ∈ ch.map (·.1)) ∧
+    (DupAttr ch a ↔ a ≠ [] ∧ a ∈ ch.map (·.2.attr)) := by
+  refine ⟨?_, Iff.rfl⟩
+  unfold DupKey
+  constructor
+  · rintro ⟨h1, h2⟩
+    refine ⟨?_, h2⟩
+    cases key with
+    | none => cases h1
+    | some k => cases k with
+      | nil => cases h1
+      | cons c cs => exact ⟨_, rfl, by simp⟩
+  · rintro ⟨⟨k, rfl, hk⟩, h2⟩
+    refine ⟨?_, h2⟩
+    cases k with
+    | nil => exact absurd rfl hk
+    | cons c cs => rfl
+
+private def exSect : SectInfo :=
+  { name := "k".toList, attr := "k".toList, multi := false, minOccurs := 0, ty := "t".toList, handler := none }
+example : DupKey [(some "k".toList, EInfo.sect exSect)] (some "k".toList) := ⟨rfl, by simp⟩
+example : DupAttr [(some "k".toList, EInfo.sect exSect)] "k".toList := ⟨by decide, by simp [EInfo.attr, exSect]⟩
+
+/-- inherited names count: after `<sectiontype extends=b>` the new type — the container now on top of the stack —
+already has the base's children: same keys, same attribute names, in the same order.  So by `C10_unique_children` a
+key or attribute name of the base cannot be used again in the derived type. -/
+theorem C10_unique_children_inherited (env : Env) (st st' : PSt) (attrs : Attrs) (b : Str)
+    (hx : attr attrs "extends" = some b) (h : startSectiontype env st attrs = .ok st') :
+    ∃ bn key base ch, basicKeyE b = .ok bn ∧ st.es.gettype bn = some (key, .concrete base) ∧
+      topChildren st' = .ok ch ∧ ch.map (·.1) = base.children.map (·.1) ∧
+      ch.map (·.2.attr) = base.children.map (·.2.attr) := by
+  obtain ⟨name, st1, bn, key, base, t, _, h2, h3, _, _, h6, _, h8⟩ := startSectiontype_extends_result hx h
+  exact ⟨bn, key, base, t.children, h2, h3, h6, deriveChildren_keys h8, deriveChildren_attrs h8⟩
+
+/-- …hence: re-using in the derived type a key of the base is a `SchemaError` -/
+theorem C10_inherited_key_refused (env : Env) (st st' : PSt) (attrs : Attrs) (b : Str) (k : Str) (info : EInfo)
+    (hx : attr attrs "extends" = some b) (h : startSectiontype env st attrs = .ok st') (hk : k ≠ [])
+    (hin : ∀ bn key base, basicKeyE b = .ok bn → st.es.gettype bn = some (key, .concrete base) →
+      some k ∈ base.children.map (·.1)) :
+    addChild st' (some k) info = .error (.schema "child name … already used") := by
+  obtain ⟨bn, key, base, ch, h1, h2, h3, h4, _⟩ := C10_unique_children_inherited env st st' attrs b hx h
+  refine addChild_dupKey _ _ h3 ⟨?_, ?_⟩
+  · cases k with
+    | nil => exact absurd rfl hk
+    | cons c cs => rfl
+  · rw [h4]; exact hin bn key base h1 h2
+
+/-- …and re-using an attribute name of the base is a `SchemaError` too -/
+theorem C10_inherited_attribute_refused (env : Env) (st st' : PSt) (attrs : Attrs) (b : Str) (key : Option Str)
+    (info : EInfo) (hx : attr attrs "extends" = some b) (h : startSectiontype env st attrs = .ok st')
+    (ha : info.attr ≠ [])
+    (hin : ∀ bn key base, basicKeyE b = .ok bn → st.es.gettype bn = some (key, .concrete base) →
+      info.attr ∈ base.children.map (·.2.attr)) :
+    ∃ t, addChild st' key info = .error (.schema t) := by
+  obtain ⟨bn, bkey, base, ch, h1, h2, h3, _, h5⟩ := C10_unique_children_inherited env st st' attrs b hx h
+  exact (addChild_schema_iff st' key info).2 ⟨ch, h3, Or.inr ⟨ha, by rw [h5]; exact hin bn bkey base h1 h2⟩⟩
+
+/-! ## 3. types are defined before they are used -/
+
+/-- `get_sectiontype` (the `type` attribute of `<section>` / `<multisection>`): a `SchemaError` iff the attribute is
+missing or empty, or its lower-cased value is not (yet) a key of the type table; otherwise the result is that key.
+It fails for no other reason. -/
+theorem C10_types_defined_before_use (st : PSt) (attrs : Attrs) :
+    ((∃ t, getSectiontype st attrs = .error (.schema t)) ↔
+        (attr attrs "type").getD [] = [] ∨ lower ((attr attrs "type").getD []) ∉ st.es.types.map (·.1)) ∧
+    (∀ e, getSectiontype st attrs = .error e → ∃ t, e = .schema t) ∧
+    (∀ n, getSectiontype st attrs = .ok n →
+        n = lower ((attr attrs "type").getD []) ∧ n ∈ st.es.types.map (·.1)) := by
+  rcases getSectiontype_cases st attrs with ⟨h0, h1⟩ | ⟨v, ha, hv, hm, h1⟩ | ⟨v, ha, hv, hm, h1⟩
+  · refine ⟨⟨fun _ => Or.inl h0, fun _ => ⟨_, h1⟩⟩, ?_, ?_⟩
+    · intro e he; rw [h1] at he; cases he; exact ⟨_, rfl⟩
+    · intro n hn; rw [h1] at hn; cases hn
+  · have hg : (attr attrs "type").getD [] = v := by rw [ha]; rfl
+    refine ⟨⟨fun _ => Or.inr (by rw [hg]; exact hm), fun _ => ⟨_, h1⟩⟩, ?_, ?_⟩
+    · intro e he; rw [h1] at he; cases he; exact ⟨_, rfl⟩
+    · intro n hn; rw [h1] at hn; cases hn
+  · have hg : (attr attrs "type").getD [] = v := by rw [ha]; rfl
+    refine ⟨⟨?_, ?_⟩, ?_, ?_⟩
+    · rintro ⟨t, ht⟩; rw [h1] at ht; cases ht
+    · rw [hg]
+      rintro (h | h)
+      · exact absurd h hv
+      · exact absurd hm h
+    · intro e he; rw [h1] at he; cases he
+    · intro n hn; rw [h1] at hn; cases hn; rw [hg]; exact ⟨rfl, hm⟩
+
+/-- `<section>` / `<multisection>` start by resolving `type`, so an undefined type makes them fail with that
+`SchemaError`, whatever their other attributes are -/
+theorem C10_section_type_undefined (env : Env) (st : PSt) (attrs : Attrs) (e : EFail)
+    (h : getSectiontype st attrs = .error e) :
+    startSection env st attrs = .error e ∧ startMultisection env st attrs = .error e := by
+  constructor
+  · unfold startSection; simp only [h, bind, Except.bind]
+  · unfold startMultisection; simp only [h, bind, Except.bind]
+
+/-- `<sectiontype extends=b>` with `b` not (yet) defined: `SchemaError` "unknown type name" — right after the name and
+the prefix of the element have been accepted -/
+theorem C10_extends_defined (env : Env) (st st1 : PSt) (attrs : Attrs) (v n b bn : Str)
+    (hv : attr attrs "name" = some v) (hn : basicKeyE v = .ok n) (hp : pushPrefix st attrs = .ok st1)
+    (hx : attr attrs "extends" = some b) (hb : basicKeyE b = .ok bn) (hg : lower bn ∉ st.es.types.map (·.1)) :
+    startSectiontype env st attrs = .error (.schema "unknown type name") := by
+  apply startSectiontype_of_base_error env st attrs v n st1 _ hv hn hp
+  obtain ⟨p, rfl⟩ := pushPrefix_ok hp
+  exact sectiontypeBase_unknown env _ attrs n b bn hx hb ((gettype_none_iff _ _).2 hg)
+
+/-- `<sectiontype implements=i>` with `i` naming nothing (neither an earlier type nor the new type itself):
+`SchemaError` "unknown type name" — once the `extends` step has passed -/
+theorem C10_implements_defined (env : Env) (st st1 : PSt) (attrs : Attrs) (v n i ifn : Str) (es2 : ES)
+    (hv : attr attrs "name" = some v) (hn : basicKeyE v = .ok n) (hp : pushPrefix st attrs = .ok st1)
+    (h2 : sectiontypeBase env st1 attrs n = .ok es2)
+    (hi : attr attrs "implements" = some i) (hb : basicKeyE i = .ok ifn)
+    (hg : lower ifn ∉ st.es.types.map (·.1)) (hself : lower ifn ≠ n) :
+    startSectiontype env st attrs = .error (.schema "unknown type name") := by
+  apply startSectiontype_of_implements_error env st attrs v n st1 es2 _ hv hn hp h2
+  obtain ⟨_, t, _, rfl⟩ := sectiontypeBase_ok h2
+  obtain ⟨p, rfl⟩ := pushPrefix_ok hp
+  apply sectiontypeImplements_unknown _ attrs n i ifn hi hb
+  rw [gettype_append_concrete, (gettype_none_iff _ _).2 hg]
+  simp only
+  rw [if_neg (fun e => hself e.symm)]
+
+/-- a `<sectiontype>` that is accepted names, in `extends`, a type defined earlier, and in `implements` too -/
+theorem C10_types_defined_before_use_sectiontype (env : Env) (st st' : PSt) (attrs : Attrs)
+    (h : startSectiontype env st attrs = .ok st') :
+    (∀ b, attr attrs "extends" = some b → ∃ bn, basicKeyE b = .ok bn ∧ lower bn ∈ st.es.types.map (·.1)) ∧
+    (∀ i, attr attrs "implements" = some i → ∃ ifn, basicKeyE i = .ok ifn ∧ lower ifn ∈ st.es.types.map (·.1)) := by
+  constructor
+  · intro b hx
+    obtain ⟨_, _, bn, key, base, _, _, h2, h3, _⟩ := startSectiontype_extends_result hx h
+    exact ⟨bn, h2, gettype_some_mem h3⟩
+  · intro i hi
+    obtain ⟨_, _, ifn, an, nm, subs, d, h1, h2, _⟩ := startSectiontype_implements hi h
+    exact ⟨ifn, h1, gettype_some_mem h2⟩
+
+/-! ## 4. `extends` names a concrete type, `implements` an abstract one -/
+
+/-- `<sectiontype extends=b>` with `b` an abstract type: `SchemaError` "sectiontype cannot extend an abstract type";
+and an accepted `<sectiontype extends=b>` has a concrete `b`. -/
+theorem C10_extends_concrete (env : Env) (st : PSt) (attrs : Attrs) (b : Str) (hx : attr attrs "extends" = some b) :
+    (∀ st1 v n bn key an subs d, attr attrs "name" = some v → basicKeyE v = .ok n → pushPrefix st attrs = .ok st1 →
+        basicKeyE b = .ok bn → st.es.gettype bn = some (key, .abstract_ an subs d) →
+        startSectiontype env st attrs = .error (.schema "sectiontype cannot extend an abstract type")) ∧
+    (∀ st', startSectiontype env st attrs = .ok st' →
+        ∃ bn key base, basicKeyE b = .ok bn ∧ st.es.gettype bn = some (key, .concrete base)) := by
+  constructor
+  · intro st1 v n bn key an subs d hv hn hp hb hg
+    apply startSectiontype_of_base_error env st attrs v n st1 _ hv hn hp
+    obtain ⟨p, rfl⟩ := pushPrefix_ok hp
+    exact sectiontypeBase_abstract env _ attrs n b bn key an subs d hx hb hg
+  · intro st' h
+    obtain ⟨_, _, bn, key, base, _, _, h2, h3, _⟩ := startSectiontype_extends_result hx h
+    exact ⟨bn, key, base, h2, h3⟩
+
+/-- `<sectiontype implements=i>` with `i` a concrete type — an earlier one, or the new type itself —: `SchemaError`
+"type specified by implements is not an abstracttype" (once the `extends` step has passed); and an accepted
+`<sectiontype implements=i>` has an abstract `i`, defined earlier. -/
+theorem C10_implements_abstract (env : Env) (st : PSt) (attrs : Attrs) (i : Str)
+    (hi : attr attrs "implements" = some i) :
+    (∀ st1 v n ifn es2, attr attrs "name" = some v → basicKeyE v = .ok n → pushPrefix st attrs = .ok st1 →
+        sectiontypeBase env st1 attrs n = .ok es2 → basicKeyE i = .ok ifn →
+        ((∃ key t, st.es.gettype ifn = some (key, .concrete t)) ∨ (st.es.gettype ifn = none ∧ lower ifn = n)) →
+        startSectiontype env st attrs = .error (.schema "type specified by implements is not an abstracttype")) ∧
+    (∀ st', startSectiontype env st attrs = .ok st' →
+        ∃ ifn an nm subs d, basicKeyE i = .ok ifn ∧ st.es.gettype ifn = some (an, .abstract_ nm subs d)) := by
+  constructor
+  · intro st1 v n ifn es2 hv hn hp h2 hb hc
+    apply startSectiontype_of_implements_error env st attrs v n st1 es2 _ hv hn hp h2
+    obtain ⟨_, t, _, rfl⟩ := sectiontypeBase_ok h2
+    obtain ⟨p, rfl⟩ := pushPrefix_ok hp
+    rcases hc with ⟨key, t', hg⟩ | ⟨hg, hs⟩
+    · apply sectiontypeImplements_concrete _ attrs n i ifn key t' hi hb
+      rw [gettype_append_concrete, hg]
+    · apply sectiontypeImplements_concrete _ attrs n i ifn n t hi hb
+      rw [gettype_append_concrete, hg]
+      simp only
+      rw [if_pos hs.symm]
+  · intro st' h
+    obtain ⟨_, _, ifn, an, nm, subs, d, h1, h2, _⟩ := startSectiontype_implements hi h
+    exact ⟨ifn, an, nm, subs, d, h1, h2⟩
+
+/-- the `implements` step never fails with anything but a `SchemaError` -/
+theorem C10_implements_errors_are_schema (es2 : ES) (attrs : Attrs) (n : Str) (e : EFail)
+    (h : sectiontypeImplements es2 attrs n = .error e) : ∃ t, e = .schema t :=
+  (EFail.isSchema_iff e).1 (sectiontypeImplements_error h)
+
+/-! ## 5. wildcard names carry an attribute; `*` is not a key name -/
+
+/-- `get_name_info` with the name `*` or `+` (given, or the default of `<section>`): without a non-empty `attribute`
+it is the `SchemaError` "container attribute must be specified"; with one it succeeds iff the attribute name is an
+identifier not starting with `getSection`, and every failure is a `SchemaError`.  The stack and the key type play no
+role for wildcard names. -/
+theorem C10_wildcard_needs_attribute (env : Env) (st : PSt) (attrs : Attrs) (dflt : Option Str) (n : Str)
+    (hn : effName attrs dflt = some n) (hw : n = ['*'] ∨ n = ['+']) :
+    ((attr attrs "attribute").getD [] = [] →
+        getNameInfo env st attrs dflt = .error (.schema "container attribute must be specified")) ∧
+    (∀ a, attr attrs "attribute" = some a → a ≠ [] →
+        (DTSpec.isIdent a = true ∧ startsWith a Gen.reservedAttrPrefix = false →
+            getNameInfo env st attrs dflt = .ok (some n, none, some a)) ∧
+        (¬ (DTSpec.isIdent a = true ∧ startsWith a Gen.reservedAttrPrefix = false) →
+            ∃ t, getNameInfo env st attrs dflt = .error (.schema t))) ∧
+    (∀ e, getNameInfo env st attrs dflt = .error e → ∃ t, e = .schema t) := by
+  refine ⟨getNameInfo_wild_noattr env st attrs dflt n hn hw, ?_, fun e he =>
+    (EFail.isSchema_iff e).1 (getNameInfo_wild_error hn hw he)⟩
+  intro a ha hne
+  cases a with
+  | nil => exact absurd rfl hne
+  | cons c cs =>
+    have hA : attrNameE attrs =
+        if DTSpec.isIdent (c :: cs) then
+          if startsWith (c :: cs) Gen.reservedAttrPrefix then serr "attribute names may not start with 'getSection'"
+          else .ok (some (c :: cs))
+        else serr "not a valid Python identifier" := by
+      unfold attrNameE; rw [ha]
+    constructor
+    · rintro ⟨h1, h2⟩
+      apply getNameInfo_wild_attr env st attrs dflt n (c :: cs) hn hw
+      rw [hA, if_pos h1, if_neg (by simp [h2])]
+    · intro hnot
+      rw [getNameInfo_wild env st attrs dflt n hn hw, hA]
+      by_cases h1 : DTSpec.isIdent (c :: cs) = true
+      · rw [if_pos h1]
+        by_cases h2 : startsWith (c :: cs) Gen.reservedAttrPrefix = true
+        · rw [if_pos h2]; exact ⟨_, rfl⟩
+        · exact absurd ⟨h1, by simpa using h2⟩ hnot
+      · rw [if_neg h1]; exact ⟨_, rfl⟩
+
+example : effName [("name".toList, ['+'])] none = some ['+'] := by decide
+
+/-- a missing or empty name is a `SchemaError` for every element that has one -/
+theorem C10_name_required (env : Env) (st : PSt) (attrs : Attrs) (dflt : Option Str)
+    (h : (effName attrs dflt).getD [] = []) :
+    getNameInfo env st attrs dflt = .error (.schema "name must be specified and non-empty") :=
+  getNameInfo_noname env st attrs dflt h
+
+/-- `name="*"` on `<key>` / `<multikey>`: always a `SchemaError` (`get_key_info`, hence `start_key` and
+`start_multikey`), whatever the other attributes and the state are -/
+theorem C10_star_key_refused (env : Env) (h : Hooks) (st : PSt) (attrs : Attrs) (hn : attr attrs "name" = some ['*']) :
+    (∃ t, getKeyInfo env st attrs = .error (.schema t)) ∧
+    (∃ t, startKey env st attrs = .error (.schema t)) ∧
+    (∃ t, startMultikey env st attrs = .error (.schema t)) ∧
+    (∃ t, startHandled env h "key".toList attrs st = .error (.schema t)) :=
+  ⟨getKeyInfo_star env st attrs hn, startKey_star env st attrs hn, startMultikey_star env st attrs hn,
+   startKey_star env st attrs hn⟩
+
+/-! ## 6. multisections are named `*` or `+` -/
+
+/-- `<multisection>` is accepted only if its name (default `*`) is `*` or `+`; with any other name that
+`get_name_info` accepts the failure is the `SchemaError` "multisection must specify '*' or '+' for the name". -/
+theorem C10_multisection_names (env : Env) (st : PSt) (attrs : Attrs) :
+    (∀ st', startMultisection env st attrs = .ok st' →
+        ∃ n, effName attrs (some ['*']) = some n ∧ (n = ['*'] ∨ n = ['+']) ∧ Gen.multisectionNames.contains n = true) ∧
+    (∀ ty req nm an, getSectiontype st attrs = .ok ty → getRequired attrs = .ok req →
+        getNameInfo env st attrs (some ['*']) = .ok (none, nm, an) →
+        startMultisection env st attrs = .error (.schema "multisection must specify '*' or '+' for the name")) := by
+  constructor
+  · intro st' h
+    obtain ⟨n, h1, h2⟩ := startMultisection_ok_name h
+    exact ⟨n, h1, h2, (multisectionNames_iff n).2 h2⟩
+  · intro ty req nm an h1 h2 h3
+    exact startMultisection_fixed_name env st attrs ty req nm an h1 h2 h3
+
+/-- a fixed name reaches that point with the any-name component empty: the hypothesis of the second part of
+`C10_multisection_names` is what `get_name_info` returns for every name other than `*` and `+` -/
+theorem C10_multisection_names_fixed (env : Env) (st : PSt) (attrs : Attrs) (r : Option Str × Option Str × Option Str)
+    (n : Str) (hn : effName attrs (some ['*']) = some n) (hw : ¬ (n = ['*'] ∨ n = ['+']))
+    (h : getNameInfo env st attrs (some ['*']) = .ok r) : r.1 = none := by
+  obtain ⟨n', a, h1, _, _, _, h5⟩ := getNameInfo_ok h
+  rw [hn] at h1; cases h1
+  rcases h5 with ⟨hw', _⟩ | ⟨_, h6, _⟩
+  · exact absurd hw' hw
+  · exact h6
+
+/-! ## 7. no default on a required key -/
+
+/-- both spellings.  (a) `<key required="yes" default=…>`: never accepted, and the `SchemaError` "required key cannot
+have a default value" as soon as the name/datatype/handler attributes are acceptable.  (b) a `<default>` element inside
+a key whose `minOccurs` is not 0: the `SchemaError` "required key cannot have default values"; and `required="yes"`
+is what makes `minOccurs` non-zero in the key frame that `<key>` / `<multikey>` push. -/
+theorem C10_required_no_default (env : Env) (st : PSt) (attrs : Attrs) :
+    (∀ d, attr attrs "required" = some "yes".toList → attr attrs "default" = some d →
+        (∀ st', startKey env st attrs ≠ .ok st') ∧
+        (∀ r, getKeyInfo env st attrs = .ok r →
+            startKey env st attrs = .error (.schema "required key cannot have a default value"))) ∧
+    (∀ isC dattrs data k rest, st.stack = .key k :: rest → k.minOccurs ≠ 0 →
+        charactersTag isC "default".toList dattrs data st =
+          .error (.schema "required key cannot have default values")) ∧
+    (∀ st', attr attrs "required" = some "yes".toList →
+        (startKey env st attrs = .ok st' ∨ startMultikey env st attrs = .ok st') →
+        ∃ k, st'.stack = .key k :: st.stack ∧ k.minOccurs = 1) := by
+  refine ⟨fun d hr hd => ⟨fun st' => startKey_required_default_fails env st st' attrs d hr hd,
+    fun r hk => startKey_required_default env st attrs r d hk hr hd⟩,
+    fun isC dattrs data k rest hs hm => charactersTag_default_required isC dattrs data st k rest hs hm, ?_⟩
+  intro st' hr h
+  have hy := getRequired_yes attrs hr
+  rcases h with h | h
+  · obtain ⟨k, req, h1, h2, h3, _⟩ := startKey_ok_stack h
+    rw [hy] at h1; cases h1
+    exact ⟨k, h2, h3⟩
+  · obtain ⟨k, req, h1, h2, h3, _⟩ := startMultikey_ok_stack h
+    rw [hy] at h1; cases h1
+    exact ⟨k, h2, h3⟩
+
+/-- for an optional key the `<default>` element is handed to `adddefault` with its `key` attribute -/
+theorem C10_default_element_optional (isC : Bool) (attrs : Attrs) (data : Str) (st : PSt) (k : EKey) (rest : List Frame)
+    (hs : st.stack = .key k :: rest) (hm : k.minOccurs = 0) :
+    charactersTag isC "default".toList attrs data st =
+      (addDefault k data (attr attrs "key")).map fun k' => { st with stack := .key k' :: rest } :=
+  charactersTag_default_optional isC attrs data st k rest hs hm
+
+/-- `<multikey default=…>` is a `SchemaError` (defaults of a multikey are given by `<default>` elements) -/
+theorem C10_multikey_default_attribute (env : Env) (st : PSt) (attrs : Attrs) (h : hasAttr attrs "default" = true) :
+    startMultikey env st attrs =
+      .error (.schema "default values for multikey must be given using 'default' elements") := by
+  rw [startMultikey_eq, if_pos h]; rfl
+
+/-! ## 8. defaults are keyed exactly when the key is a wildcard, and do not collide after key normalisation -/
+
+/-- `BaseKeyInfo.adddefault`: it succeeds only on an unfinished key and only if a `key` is given exactly when the key's
+name is `+`; the two mismatches are `SchemaError`s.  For a single-valued `+` key a key that is already present is the
+`SchemaError` "duplicate default value for key", a new one is appended; for a single-valued fixed key a second
+default is a `SchemaError`. -/
+theorem C10_default_keying (k : EKey) (v : Str) (key : Option Str) :
+    (∀ k', addDefault k v key = .ok k' → k.finished = false ∧ (k.name = ['+'] ↔ key.isSome = true)) ∧
+    (k.finished = false → k.name = ['+'] → key = none →
+        addDefault k v key = .error (.schema "default values must be keyed for name='+'")) ∧
+    (k.finished = false → k.name ≠ ['+'] → key.isSome = true →
+        addDefault k v key = .error (.schema "unexpected key for default value")) ∧
+    (k.finished = true → addDefault k v key = .error (.schema "cannot add default values to finished KeyInfo")) ∧
+    (∀ kk m, k.finished = false → k.multi = false → k.name = ['+'] → k.dflt = .keyed m → key = some kk →
+        (kk ∈ m.map (·.1) → addDefault k v key = .error (.schema "duplicate default value for key")) ∧
+        (kk ∉ m.map (·.1) →
+            addDefault k v key = .ok { k with dflt := .keyed (m ++ [(kk, { value := v, pos := defaultPos })]) })) ∧
+    (∀ vi0, k.finished = false → k.multi = false → k.name ≠ ['+'] → k.dflt = .one vi0 → key = none →
+        addDefault k v key =
+          .error (.schema "cannot set more than one default to key with maxOccurs == 1")) := by
+  refine ⟨fun k' h => ⟨(addDefault_ok h).1, (addDefault_ok h).2.1⟩, ?_, ?_, addDefault_finished k v key, ?_, ?_⟩
+  · rintro hf hn rfl; exact addDefault_unkeyed_wild k v hf hn
+  · intro hf hn hk
+    cases key with
+    | none => cases hk
+    | some kk => exact addDefault_keyed_fixed k v kk hf hn
+  · rintro kk m hf hm hn hd rfl
+    have hw : k.name = ['+'] ↔ (some kk).isSome = true := by simp [hn]
+    rw [addDefault_wellkeyed k v (some kk) hf hw]
+    exact ⟨addValueInfo_single_dup k _ kk m hm hn hd, addValueInfo_single_new k _ kk m hm hn hd⟩
+  · rintro vi0 hf hm hn hd rfl
+    have hw : k.name = ['+'] ↔ (none : Option Str).isSome = true := by simp [hn]
+    rw [addDefault_wellkeyed k v none hf hw]
+    exact addValueInfo_single_second k _ vi0 none hm hn hd
+
+/-- `KeyInfo.computedefault(keytype)` for a single-valued `+` key whose defaults as written are `m`: when the key type
+accepts every key as written (normalising them to `ks`), the result is the `SchemaError` "duplicate default value for
+key" iff two of the normalised keys coincide; otherwise the defaults become the normalised keys paired, in order, with
+the values, and the keys as written are remembered (`raw`).  Conversely success implies that every key was accepted and
+that the normalised keys are pairwise distinct. -/
+theorem C10_default_keys_collide (env : Env) (kt : Str) (k : EKey) (m : List (Str × VI))
+    (hn : k.name = ['+']) (hm : k.multi = false) (hraw : k.raw.getD k.dflt = .keyed m) :
+    (∀ ks, normKeys env kt m = .ok ks →
+        (¬ ks.Nodup → computeDefault env kt k = .error (.schema "duplicate default value for key")) ∧
+        (ks.Nodup → computeDefault env kt k =
+            .ok { k with raw := some (.keyed m), dflt := .keyed (ks.zip (m.map (·.2))) })) ∧
+    (∀ k', computeDefault env kt k = .ok k' →
+        ∃ ks, normKeys env kt m = .ok ks ∧ ks.Nodup ∧
+          k' = { k with raw := some (.keyed m), dflt := .keyed (ks.zip (m.map (·.2))) }) := by
+  constructor
+  · intro ks hks
+    have := computeDefault_single env kt k m ks hn hm hraw hks
+    exact ⟨this.2, this.1⟩
+  · intro k' h
+    exact computeDefault_single_ok hn hm hraw h
+
+private def exEnv : Env :=
+  { conv := { key := fun _ s => .ok (asciiLower s), val := fun _ s => .ok (.str s), sect := fun _ v => .ok v },
+    dotted := fun _ => .valueError, comps := fun _ _ => .notImportable, bases := fun _ => none }
+private def exVI : VI := { value := "v".toList, pos := defaultPos }
+/-- two keys as written, `A` and `a`, that a lower-casing key type makes collide -/
+example : normKeys exEnv [] [("A".toList, exVI), ("a".toList, exVI)] = .ok ["a".toList, "a".toList] ∧
+    ¬ ["a".toList, "a".toList].Nodup := ⟨rfl, by decide⟩
+
+/-- …and the collision is reported while the schema is loaded: when the `<key name="+">` element ends, the defaults
+collected from its `<default key=…>` children are normalised under the key type of the enclosing container, and two
+that coincide make `</key>` fail with the `SchemaError` -/
+theorem C10_default_keys_collide_at_end_of_key (env : Env) (st : PSt) (k : EKey) (rest : List Frame) (kt : Str)
+    (m : List (Str × VI)) (ks : List Str) (hs : st.stack = .key k :: rest) (hn : k.name = ['+'])
+    (hm : k.multi = false) (hkt : topKeytype { st with stack := rest } = .ok kt)
+    (hraw : k.raw.getD k.dflt = .keyed m) (hks : normKeys env kt m = .ok ks) (hdup : ¬ ks.Nodup) :
+    endKey env st = .error (.schema "duplicate default value for key") ∧
+    endHandled env "key".toList st = .error (.schema "duplicate default value for key") :=
+  ⟨endKey_collision env st k rest kt m ks hs hn hm hkt hraw hks hdup,
+   endKey_collision env st k rest kt m ks hs hn hm hkt hraw hks hdup⟩
+
+/-- …and again when a type is derived: a wildcard key inherited from the base whose defaults — as written in the base —
+collide under the *derived* type's key type makes `<sectiontype extends=…>` fail with the `SchemaError`, as soon as
+the earlier steps of the element pass and the base's children before that key are derivable -/
+theorem C10_default_keys_collide_in_derived_type (env : Env) (st st1 : PSt) (attrs : Attrs)
+    (v n b bn bkey kt dt : Str) (base : EType) (pre post pre' : List (Option Str × EInfo)) (key : Option Str)
+    (k : EKey) (m : List (Str × VI)) (ks : List Str)
+    (hv : attr attrs "name" = some v) (hb : basicKeyE v = .ok n) (hp : pushPrefix st attrs = .ok st1)
+    (hx : attr attrs "extends" = some b) (hbn : basicKeyE b = .ok bn)
+    (hg : st.es.gettype bn = some (bkey, .concrete base))
+    (hi : getSectTypeinfo env st1 attrs (some (base.keytype, base.datatype)) = .ok (kt, dt))
+    (hfresh : n ∉ st.es.types.map (·.1))
+    (hch : base.children = pre ++ (key, .key k) :: post) (hpre : deriveChildren env kt pre = .ok pre')
+    (hn : k.name = ['+']) (hm : k.multi = false) (hraw : k.raw.getD k.dflt = .keyed m)
+    (hks : normKeys env kt m = .ok ks) (hdup : ¬ ks.Nodup) :
+    startSectiontype env st attrs = .error (.schema "duplicate default value for key") := by
+  apply startSectiontype_of_base_error env st attrs v n st1 _ hv hb hp
+  obtain ⟨p, rfl⟩ := pushPrefix_ok hp
+  apply sectiontypeBase_derive_error env { st with prefixes := p :: st.prefixes } attrs n b bn bkey kt dt base _
+    hx hbn hg hi hfresh
+  rw [hch]
+  exact deriveChildren_collision env kt pre post pre' key k m ks hpre hn hm hraw hks hdup
+
+/-- nothing is wrongly refused for a multi-valued `+` key: whenever the key type accepts every key as written,
+`computedefault` succeeds (defaults whose keys coincide after normalisation are merged) -/
+theorem C10_multikey_defaults_never_collide (env : Env) (kt : Str) (k : EKey) (m : List (Str × List VI))
+    (hn : k.name = ['+']) (hm : k.multi = true) (hraw : k.raw.getD k.dflt = .keyedMany m)
+    (hks : ∀ p ∈ m, ∃ key, convDefaultKey env kt p.1 = .ok key) :
+    ∃ m', computeDefault env kt k = .ok { k with raw := some (.keyedMany m), dflt := .keyedMany m' } :=
+  computeDefault_multi_ok env kt k m hn hm hraw hks
+
+/-- a key as written that the key type rejects is a `DataConversionError`, one it accepts is normalised -/
+theorem C10_default_key_conversion (env : Env) (kt rk : Str) :
+    (env.conv.key kt rk = .error .valueError → convDefaultKey env kt rk = .error (.conversion "default key")) ∧
+    (∀ r, env.conv.key kt rk = .ok r → convDefaultKey env kt rk = .ok r) := by
+  constructor
+  · intro h; unfold convDefaultKey; rw [h]
+  · intro r h; unfold convDefaultKey; rw [h]
+
+/-! ## 9. `required` is `yes` or `no` -/
+
+/-- `required`: absent means no, `yes` / `no` mean what they say, anything else is a `SchemaError` -/
+theorem C10_required_values (attrs : Attrs) :
+    (attr attrs "required" = none → getRequired attrs = .ok false) ∧
+    (attr attrs "required" = some "yes".toList → getRequired attrs = .ok true) ∧
+    (attr attrs "required" = some "no".toList → getRequired attrs = .ok false) ∧
+    (∀ v, attr attrs "required" = some v → v ≠ "yes".toList → v ≠ "no".toList →
+        getRequired attrs = .error (.schema "value for 'required' must be 'yes' or 'no'")) ∧
+    (∀ e, getRequired attrs = .error e → ∃ t, e = .schema t) := by
+  refine ⟨?_, ?_, ?_, ?_, fun e h => (EFail.isSchema_iff e).1 (getRequired_error h)⟩
+  · intro h; rw [getRequired_eq, h]
+  · intro h; rw [getRequired_eq, h]; rfl
+  · intro h; rw [getRequired_eq, h]; rfl
+  · intro v h h1 h2; rw [getRequired_eq, h]; simp only [h1, h2, ↓reduceIte]
+
+/-! ## 10. element nesting as in the DTD, no stray text, the document element -/
+
+/-- the nesting check of `startElement`: an element `name` is accepted below `parent` iff the table
+`BaseParser._allowed_parents` (generated from the source) has an entry for `name` that lists `parent`; every refusal
+is a `SchemaError` (unknown element, or wrong place). -/
+theorem C10_nesting (parent name : Str) :
+    (nestingCheck parent name = .ok () ↔ ∃ ps, (name, ps) ∈ Gen.allowedParents ∧ parent ∈ ps) ∧
+    (∀ e, nestingCheck parent name = .error e → ∃ t, e = .schema t) :=
+  ⟨nestingCheck_ok_iff parent name, fun e h => (EFail.isSchema_iff e).1 (nestingCheck_error h)⟩
+
+/-- an element in the wrong place fails when it starts, before any handler runs -/
+theorem C10_nesting_enforced (env : Env) (h : Hooks) (d : DocKind) (parent : Str) (st : PSt) (t : Str) (a : Attrs)
+    (c : List Node) (e : EFail) (hn : nestingCheck parent t = .error e) :
+    visitElem env h d (some parent) st (.elem t a c) = .error e :=
+  visitElem_nesting_error env h d parent st t a c e hn
+
+private theorem tbl (name : String) (ps : List String)
+    (h : Gen.allowedParents.find? (·.1 == name.toList) = some (name.toList, ps.map String.toList)) (parent : Str) :
+    nestingCheck parent name.toList = .ok () ↔ parent ∈ ps.map String.toList :=
+  nestingCheck_of_table parent name.toList _ h
+
+/-- the table, read off the generated constant: where each element of the schema language may appear -/
+theorem C10_nesting_table (parent : Str) :
+    (nestingCheck parent "key".toList = .ok () ↔ parent ∈ ["schema", "sectiontype"].map String.toList) ∧
+    (nestingCheck parent "multikey".toList = .ok () ↔ parent ∈ ["schema", "sectiontype"].map String.toList) ∧
+    (nestingCheck parent "section".toList = .ok () ↔ parent ∈ ["schema", "sectiontype"].map String.toList) ∧
+    (nestingCheck parent "multisection".toList = .ok () ↔ parent ∈ ["schema", "sectiontype"].map String.toList) ∧
+    (nestingCheck parent "default".toList = .ok () ↔ parent ∈ ["key", "multikey"].map String.toList) ∧
+    (nestingCheck parent "sectiontype".toList = .ok () ↔ parent ∈ ["schema", "component"].map String.toList) ∧
+    (nestingCheck parent "abstracttype".toList = .ok () ↔ parent ∈ ["schema", "component"].map String.toList) ∧
+    (nestingCheck parent "import".toList = .ok () ↔ parent ∈ ["schema", "component"].map String.toList) ∧
+    (nestingCheck parent "metadefault".toList = .ok () ↔
+        parent ∈ ["key", "section", "multikey", "multisection"].map String.toList) ∧
+    (nestingCheck parent "example".toList = .ok () ↔
+        parent ∈ ["schema", "sectiontype", "key", "multikey", "section", "multisection"].map String.toList) ∧
+    (nestingCheck parent "description".toList = .ok () ↔
+        parent ∈ ["key", "section", "multikey", "multisection", "sectiontype", "abstracttype", "schema",
+                  "component"].map String.toList) ∧
+    (nestingCheck parent "schema".toList = .error (.schema "Unknown tag")) ∧
+    (nestingCheck parent "component".toList = .error (.schema "Unknown tag")) := by
+  refine ⟨tbl _ _ (by decide +kernel) _, tbl _ _ (by decide +kernel) _, tbl _ _ (by decide +kernel) _,
+    tbl _ _ (by decide +kernel) _, tbl _ _ (by decide +kernel) _, tbl _ _ (by decide +kernel) _,
+    tbl _ _ (by decide +kernel) _, tbl _ _ (by decide +kernel) _, tbl _ _ (by decide +kernel) _,
+    tbl _ _ (by decide +kernel) _, tbl _ _ (by decide +kernel) _, ?_, ?_⟩
+  · rw [nestingCheck_eq]
+    have : Gen.allowedParents.find? (·.1 == "schema".toList) = none := by decide +kernel
+    rw [this]
+  · rw [nestingCheck_eq]
+    have : Gen.allowedParents.find? (·.1 == "component".toList) = none := by decide +kernel
+    rw [this]
+
+/-- character data between the elements of a non-character-data element: blank text is skipped, anything else is the
+`SchemaError` "unexpected non-blank character data" -/
+theorem C10_stray_text (env : Env) (h : Hooks) (d : DocKind) (parent : Str) (st : PSt) (s : Str) (r : List Node) :
+    ((strip s).isEmpty = false →
+        visitChildren env h d parent st (.text s :: r) = .error (.schema "unexpected non-blank character data")) ∧
+    ((strip s).isEmpty = true →
+        visitChildren env h d parent st (.text s :: r) = visitChildren env h d parent st r) := by
+  rw [visitChildren_text]
+  constructor
+  · intro hb; rw [if_neg (by simp [hb])]
+  · intro hb; rw [if_pos hb]
+
+/-- so when the children of an element are read successfully, every text node among them is blank and every element
+among them is one the table allows there -/
+theorem C10_children_wellformed (env : Env) (h : Hooks) (d : DocKind) (parent : Str) (l : List Node) (st st' : PSt)
+    (hv : visitChildren env h d parent st l = .ok st') :
+    (∀ s, Node.text s ∈ l → (strip s).isEmpty = true) ∧
+    (∀ t a c, Node.elem t a c ∈ l → nestingCheck parent t = .ok ()) :=
+  ⟨fun _ hs => visitChildren_ok_all hv _ hs, fun _ _ _ ht => visitChildren_ok_all hv _ ht⟩
+
+/-- a document whose root element is not `schema` (for a schema) / `component` (for a component) is refused with
+`UnknownDocumentTypeError` — a `SchemaError` — before anything else is looked at -/
+theorem C10_unknown_document_type (env : Env) (h : Hooks) (d : DocKind) (st : PSt) (t : Str) (a : Attrs) (c : List Node)
+    (ht : t ≠ d.topLevel) :
+    visitElem env h d none st (.elem t a c) = .error (.schema "UnknownDocumentTypeError") :=
+  visitElem_wrong_root env h d st t a c ht
+
+/-- …in particular for `loadSchema` -/
+theorem C10_unknown_document_type_schema (env : Env) (fuel : Nat) (t : Str) (a : Attrs) (c : List Node)
+    (ht : t ≠ "schema".toList) :
+    elabES env fuel (.elem t a c) = .error (.schema "UnknownDocumentTypeError") := by
+  unfold elabES
+  rw [visitElem_wrong_root env _ (.schema none) _ t a c (by exact ht)]
+  rfl
+
+/-! ## 11. well-formed names -/
+
+/-- names that the schema language takes as basic-keys (type names, `handler`) are accepted exactly when they are a
+letter followed by letters, digits, `-`, `.`, `_`, and are lower-cased; names taken as identifiers (`attribute`)
+exactly when they are a letter or `_` followed by letters, digits, `_`.  Everything else is a `SchemaError`. -/
+theorem C10_wellformed_names (s : Str) :
+    (basicKeyE s = if DTSpec.isBasicKey s then .ok (asciiLower s)
+                   else .error (.schema "value did not match regular expression")) ∧
+    (identifierE s = if DTSpec.isIdent s then .ok s else .error (.schema "not a valid Python identifier")) ∧
+    (∀ r, basicKeyE s = .ok r ↔ DT.basicKey s = .ok r) ∧
+    (∀ r, identifierE s = .ok r ↔ DT.identifier s = .ok r) := by
+  refine ⟨basicKeyE_eq s, identifierE_eq s, ?_, ?_⟩
+  · intro r
+    unfold basicKeyE
+    cases DT.basicKey s with
+    | ok a => simp
+    | error e => simp [serr]
+  · intro r
+    unfold identifierE
+    cases DT.identifier s with
+    | ok a => simp
+    | error e => simp [serr]
+
+example : DTSpec.isBasicKey "My-Type.1".toList = true ∧ DTSpec.isBasicKey "1x".toList = false := by decide
+
+/-- the `attribute` attribute of any named element: if present and non-empty it must be an identifier that does not
+start with `getSection`, otherwise the element is refused with a `SchemaError` — whatever its name is -/
+theorem C10_attribute_names (env : Env) (st : PSt) (attrs : Attrs) (dflt : Option Str) (n a : Str)
+    (hn : effName attrs dflt = some n) (hne : n ≠ []) (ha : attr attrs "attribute" = some a) (hae : a ≠ []) :
+    (DTSpec.isIdent a = false → getNameInfo env st attrs dflt = .error (.schema "not a valid Python identifier")) ∧
+    (DTSpec.isIdent a = true → startsWith a Gen.reservedAttrPrefix = true →
+        getNameInfo env st attrs dflt = .error (.schema "attribute names may not start with 'getSection'")) := by
+  cases a with
+  | nil => exact absurd rfl hae
+  | cons c cs =>
+    have hA : attrNameE attrs =
+        if DTSpec.isIdent (c :: cs) then
+          if startsWith (c :: cs) Gen.reservedAttrPrefix then serr "attribute names may not start with 'getSection'"
+          else .ok (some (c :: cs))
+        else serr "not a valid Python identifier" := by
+      unfold attrNameE; rw [ha]
+    constructor
+    · intro h1
+      apply getNameInfo_attr_error env st attrs dflt n _ hn hne
+      rw [hA, if_neg (by simp [h1])]; rfl
+    · intro h1 h2
+      apply getNameInfo_attr_error env st attrs dflt n _ hn hne
+      rw [hA, if_pos h1, if_pos h2]; rfl
+
+/-- a fixed name (not `*`, not `+`) is normalised by the key type of the enclosing container: a name the key type
+rejects is the `SchemaError` "could not convert key name to keytype"; an accepted one is kept in its normalised form,
+and when no `attribute` is given the attribute name is derived from it (basic-key, `-` replaced by `_`, which must
+give an identifier — otherwise a `SchemaError`) -/
+theorem C10_fixed_names (env : Env) (st : PSt) (attrs : Attrs) (dflt : Option Str) (n kt : Str) (aname : Option Str)
+    (hn : effName attrs dflt = some n) (hne : n ≠ []) (hw : ¬ (n = ['*'] ∨ n = ['+']))
+    (ha : attrNameE attrs = .ok aname) (hkt : topKeytype st = .ok kt) :
+    (env.conv.key kt n = .error .valueError →
+        getNameInfo env st attrs dflt = .error (.schema "could not convert key name to keytype")) ∧
+    (∀ nm, env.conv.key kt n = .ok nm →
+        (∀ a, aname = some a → getNameInfo env st attrs dflt = .ok (none, some nm, some a)) ∧
+        (aname = none → DTSpec.isBasicKey nm = false →
+            getNameInfo env st attrs dflt = .error (.schema "value did not match regular expression")) ∧
+        (aname = none → DTSpec.isBasicKey nm = true →
+            getNameInfo env st attrs dflt =
+              (identifierE ((asciiLower nm).map fun ch => if ch == '-' then '_' else ch)).map
+                fun a' => (none, some nm, some a'))) := by
+  constructor
+  · intro h
+    exact getNameInfo_fixed_badkey env st attrs dflt n kt aname _ hn hne hw ha hkt ((convKeyName_cases env kt n).2 h)
+  · intro nm h
+    have hf := getNameInfo_fixed env st attrs dflt n kt nm aname hn hne hw ha hkt ((convKeyName_cases env kt n).1 nm h)
+    refine ⟨?_, ?_, ?_⟩
+    · rintro a rfl; exact hf
+    · rintro rfl hb
+      rw [hf]; simp only [basicKeyE_eq, hb, bind, Except.bind]; rfl
+    · rintro rfl hb
+      rw [hf]; simp only [basicKeyE_eq, hb, bind, Except.bind, ↓reduceIte]
+      cases identifierE _ <;> rfl
+
+/-- datatype names (`datatype`, `keytype`, `valuetype`): a name without a dot must be a basic-key naming a stock
+datatype; a dotted name is looked up by the registry, whose `ValueError` is a `SchemaError`.  (Only an exception
+*raised by the import itself* is passed through unchanged, as in Python.) -/
+theorem C10_datatype_names (env : Env) (name : Str) :
+    (name.contains '.' = false → DTSpec.isBasicKey name = false →
+        regGet env name = .error (.schema "value did not match regular expression")) ∧
+    (name.contains '.' = false → DTSpec.isBasicKey name = true → Gen.stockNames.contains (asciiLower name) = false →
+        regGet env name = .error (.schema "unloadable datatype name")) ∧
+    (name.contains '.' = false → DTSpec.isBasicKey name = true → Gen.stockNames.contains (asciiLower name) = true →
+        regGet env name = .ok (asciiLower name)) ∧
+    (name.contains '.' = true → env.dotted name = .valueError →
+        regGet env name = .error (.schema "datatype (registry ValueError)")) ∧
+    (∀ c, name.contains '.' = true → env.dotted name = .found c → regGet env name = .ok c) ∧
+    (∀ x, name.contains '.' = true → env.dotted name = .raises x → regGet env name = .error (.internal x)) :=
+  regGet_cases env name
+
+/-- the `handler` attribute is a basic-key -/
+theorem C10_handler_name (attrs : Attrs) :
+    (attr attrs "handler" = none → getHandler attrs = .ok none) ∧
+    (∀ v, attr attrs "handler" = some v →
+        getHandler attrs = if DTSpec.isBasicKey v then .ok (some (asciiLower v))
+                           else .error (.schema "value did not match regular expression")) := by
+  constructor
+  · intro h; unfold getHandler; rw [h]
+  · intro v h
+    unfold getHandler; rw [h]
+    simp only [basicKeyE_eq]
+    split <;> rfl
+
+/-! ## the rules, for whole documents
+
+`Occurs none root q n`: the node `n` occurs somewhere in the tree `root`, directly below an element with tag `q`
+(`q = none`: `n` is the root).  The statements hold for schemas and for components, and whatever the hooks that read
+imported components and base schemas are. -/
+
+/-- in a document the loader accepts: the root is the document element; every element, at any depth, stands where the
+nesting table allows; and every text node outside the character-data elements is blank -/
+theorem C10_accepted_document_shape (env : Env) (h : Hooks) (d : DocKind) (st st' : PSt) (root : Node)
+    (hv : visitElem env h d none st root = .ok st') :
+    (∀ t a c, root = .elem t a c → t = d.topLevel) ∧
+    (∀ par t a c, Occurs none root (some par) (.elem t a c) → ∃ ps, (t, ps) ∈ Gen.allowedParents ∧ par ∈ ps) ∧
+    (∀ par s, Occurs none root (some par) (.text s) →
+        (strip s).isEmpty = true ∨ Gen.cdataTags.contains par = true) := by
+  refine ⟨?_, ?_, ?_⟩
+  · intro t a c hr
+    exact (accepted_elements .here hv t a c hr).1
+  · intro par t a c ho
+    exact (nestingCheck_ok_iff par t).1 (accepted_elements ho hv t a c rfl).1
+  · intro par s ho
+    rcases accepted_text ho hv s par rfl rfl with ⟨h0, _⟩ | h1
+    · cases h0
+    · exact h1
+
+/-- in a document the loader accepts, every element with a handler — at any depth — had its start handler succeed in
+some loader state; so every "the handler succeeds only if …" statement above holds for every element of an accepted
+document.  Spelled out for the rules that only involve the element's own attributes: -/
+theorem C10_accepted_document_rules (env : Env) (h : Hooks) (d : DocKind) (st st' : PSt) (root : Node)
+    (hv : visitElem env h d none st root = .ok st') :
+    (∀ q a c, Occurs none root q (.elem "key".toList a c) →
+        attr a "name" ≠ some ['*'] ∧ (∃ req, getRequired a = .ok req) ∧
+        ¬ (attr a "required" = some "yes".toList ∧ (attr a "default").isSome = true)) ∧
+    (∀ q a c, Occurs none root q (.elem "multikey".toList a c) →
+        attr a "name" ≠ some ['*'] ∧ (∃ req, getRequired a = .ok req) ∧ (attr a "default").isSome = false) ∧
+    (∀ q a c, Occurs none root q (.elem "section".toList a c) →
+        (attr a "type").getD [] ≠ [] ∧ (∃ req, getRequired a = .ok req)) ∧
+    (∀ q a c, Occurs none root q (.elem "multisection".toList a c) →
+        (attr a "type").getD [] ≠ [] ∧ (∃ req, getRequired a = .ok req) ∧
+        ∃ n, effName a (some ['*']) = some n ∧ (n = ['*'] ∨ n = ['+'])) ∧
+    (∀ q a c, Occurs none root q (.elem "sectiontype".toList a c) →
+        ∃ v, attr a "name" = some v ∧ DTSpec.isBasicKey v = true) ∧
+    (∀ q a c, Occurs none root q (.elem "abstracttype".toList a c) →
+        ∃ v, attr a "name" = some v ∧ DTSpec.isBasicKey v = true) := by
+  have typed : ∀ (s : PSt) (a : Attrs) (ty : Str), getSectiontype s a = .ok ty → (attr a "type").getD [] ≠ [] := by
+    intro s a ty hty h0
+    rw [getSectiontype_missing s a h0] at hty; cases hty
+  refine ⟨?_, ?_, ?_, ?_, ?_, ?_⟩
+  · intro q a c ho
+    obtain ⟨s0, s1, hs⟩ := accepted_start ho hv (by decide +kernel)
+    rw [startHandled_key] at hs
+    refine ⟨?_, ?_, ?_⟩
+    · intro hn
+      obtain ⟨t, ht⟩ := startKey_star env s0 a hn
+      rw [ht] at hs; cases hs
+    · obtain ⟨k, req, h1, _⟩ := startKey_ok_stack hs
+      exact ⟨req, h1⟩
+    · rintro ⟨hr, hd⟩
+      cases hdd : attr a "default" with
+      | none => rw [hdd] at hd; cases hd
+      | some dv => exact startKey_required_default_fails env s0 s1 a dv hr hdd hs
+  · intro q a c ho
+    obtain ⟨s0, s1, hs⟩ := accepted_start ho hv (by decide +kernel)
+    rw [startHandled_multikey] at hs
+    refine ⟨?_, ?_, ?_⟩
+    · intro hn
+      obtain ⟨t, ht⟩ := startMultikey_star env s0 a hn
+      rw [ht] at hs; cases hs
+    · obtain ⟨k, req, h1, _⟩ := startMultikey_ok_stack hs
+      exact ⟨req, h1⟩
+    · cases hd : (attr a "default").isSome with
+      | false => rfl
+      | true =>
+        rw [C10_multikey_default_attribute env s0 a hd] at hs; cases hs
+  · intro q a c ho
+    obtain ⟨s0, s1, hs⟩ := accepted_start ho hv (by decide +kernel)
+    rw [startHandled_section] at hs
+    obtain ⟨ty, req, h1, h2⟩ := startSection_ok_type hs
+    exact ⟨typed s0 a ty h1, req, h2⟩
+  · intro q a c ho
+    obtain ⟨s0, s1, hs⟩ := accepted_start ho hv (by decide +kernel)
+    rw [startHandled_multisection] at hs
+    obtain ⟨ty, req, h1, h2⟩ := startMultisection_ok_type hs
+    exact ⟨typed s0 a ty h1, ⟨req, h2⟩, startMultisection_ok_name hs⟩
+  · intro q a c ho
+    obtain ⟨s0, s1, hs⟩ := accepted_start ho hv (by decide +kernel)
+    rw [startHandled_sectiontype] at hs
+    obtain ⟨v, n, _, h1, h2, _⟩ := startSectiontype_result hs
+    exact ⟨v, h1, (basicKeyE_ok h2).1⟩
+  · intro q a c ho
+    obtain ⟨s0, s1, hs⟩ := accepted_start ho hv (by decide +kernel)
+    rw [startHandled_abstracttype] at hs
+    cases hv' : attr a "name" with
+    | none => rw [startAbstracttype_noname s0 a (by rw [hv']; rfl)] at hs; cases hs
+    | some v =>
+      cases hb : basicKeyE v with
+      | ok n => exact ⟨v, rfl, (basicKeyE_ok hb).1⟩
+      | error e =>
+        by_cases hne : v = []
+        · subst hne; rw [startAbstracttype_noname s0 a (by rw [hv']; rfl)] at hs; cases hs
+        · rw [startAbstracttype_badname s0 a v e hv' hne hb] at hs; cases hs
+
+/-- the same for `loadSchema`: a successful load is a successful pass over the document, to which the two theorems
+above apply -/
+theorem C10_accepted_schema (env : Env) (fuel : Nat) (tree : Node) (es : ES) (h : elabES env fuel tree = .ok es) :
+    ∃ st', visitElem env (hooks env fuel) (.schema none) none { es := emptyES } tree = .ok st' ∧ st'.es = es :=
+  elabES_ok h
+
+/-- the hypotheses of the document-level theorems are satisfiable by a document with an inner element:
+`<schema><abstracttype name="a"/></schema>` is accepted, for every environment -/
+example (env : Env) (fuel : Nat) :
+    (∃ es, elabES env fuel exDoc = .ok es) ∧
+    Occurs none exDoc (some "schema".toList) (.elem "abstracttype".toList [("name".toList, "a".toList)] []) :=
+  ⟨exDoc_accepted env fuel, .child (by simp) .here⟩
+
+
+/-- **Nothing is left for load time.**  Every schema document the loader accepts — any element tree, any components and
+    base schemas reached through it, any nesting of imports — yields a schema object satisfying the structural invariant
+    `schemaOK` that the configuration-loading theorems C01/C02/C07/C14/C16 assume: attribute names and keys are unique
+    per type (inherited ones included), keys are stored under their own non-empty name with a default of the right shape,
+    section slots refer to types that exist, type names equal their table keys.  `hkey` (key types never turn a non-empty
+    name into the empty string) holds of the stock key types (`stockConv_key_ne_nil`). -/
+theorem C10_elab_schemaOK (env : Elab.Env) (fuel : Nat) (t : Elab.Node) (S : Cfg.Schema)
+    (hkey : ∀ (kt s r : Str), s ≠ [] → env.conv.key kt s = .ok r → r ≠ [])
+    (h : Elab.elabSchema env fuel t = .ok S) : Conf.schemaOK S = true :=
+  Elab.elab_schemaOK' env fuel t S hkey ZCV.lower_idem h
+
+/-- the same for the stock key types (basic-key, identifier, ipaddr-or-hostname, string): no hypothesis left -/
+theorem C10_elab_schemaOK_stock (env : Elab.Env) (fuel : Nat) (t : Elab.Node) (S : Cfg.Schema)
+    (hconv : env.conv = Cfg.stockConv) (h : Elab.elabSchema env fuel t = .ok S) : Conf.schemaOK S = true :=
+  C10_elab_schemaOK env fuel t S (by intro kt s r hs hr; rw [hconv] at hr; exact Elab.stockConv_key_ne_nil kt s r hs hr) h
+
 end ZCV.Props.C10
